@@ -40,13 +40,9 @@ func shapeTx(shape tla.Value, fill byte) *wire.MsgTx {
 }
 
 func runWeight(c *vrun.Ctx) error {
-	states, err := model(c, "Weight", 2, []string{"Group", "Pick"})
-	if err != nil {
-		return err
-	}
 	st := newStats()
-	c.Parallel(len(states), func(i int) {
-		s := states[i]
+	bt := &batcher{c: c, size: 4000}
+	bt.work = func(i int, s tla.State) {
 		cs, ex := s["case"], s["expect"]
 		switch cs.F("kind").Str() {
 		case "tx":
@@ -66,7 +62,7 @@ func runWeight(c *vrun.Ctx) error {
 				c.Violation("weight:tx", fmt.Sprintf("GetTransactionWeight(%s) = %d, the definition gives 3*%d + %d = %d (serialised sizes of the real transaction: stripped %d, total %d)",
 					clip(shape.String(), 300), got, ex.F("stripped").I, ex.F("total").I, want, msg.SerializeSizeStripped(), msg.SerializeSize()), replay)
 			}
-			if len(c.Ev.Coverage.Samples) < 6 && ex.F("witness").Bool() && i%97 == 0 {
+			if ex.F("witness").Bool() && i%997 == 0 {
 				c.Sample(map[string]any{"kind": "txweight", "shape": shape.Go(), "weight": ex.F("weight").I})
 			}
 		case "block":
@@ -93,7 +89,11 @@ func runWeight(c *vrun.Ctx) error {
 					ex.F("ntx").I, got, ex.F("stripped").I, ex.F("total").I, want, blk.SerializeSizeStripped(), blk.SerializeSize()), replay)
 			}
 		}
-	})
+	}
+	if err := model(c, "Weight", 2, []string{"Group", "Pick"}, func(s tla.State) error { bt.add(s); return nil }); err != nil {
+		return err
+	}
+	bt.flush()
 	c.Logf("Weight cases replayed: %s", st)
 	c.SetExtra("weight_cases", st.export())
 	return nil
